@@ -204,3 +204,30 @@ theorem repeatN_u32s (l : List Nat) (r : Bytes) (hw : ∀ x ∈ l, x < 2 ^ 32) :
   repeatN_encList u32 w32 (fun x => x < 2 ^ 32) (fun x r h => u32_w32 x h r) l r hw
 
 end DS.Wire
+
+namespace DS.Wire
+open Reader
+
+/-- if every successful read of `rd` accounts for `size x` consumed bytes, `m` repetitions account for the sum -/
+theorem repeatN_sum_bound {α : Type} (rd : Reader α) (size : α → Nat)
+    (hp : ∀ b x r, rd b = some (x, r) → size x + r.length ≤ b.length) :
+    ∀ (m : Nat) (b r : Bytes) (l : List α), repeatN rd m b = some (l, r) → (l.map size).sum + r.length ≤ b.length := by
+  intro m
+  induction m with
+  | zero =>
+    intro b r l h
+    obtain ⟨h1, h2⟩ := pure_inv h
+    subst h1; subst h2; simp
+  | succ m ih =>
+    intro b r l h
+    simp only [repeatN] at h
+    obtain ⟨x, r1, h1, h⟩ := bind_inv h
+    obtain ⟨t, r2, h2, h⟩ := bind_inv h
+    obtain ⟨h3, h4⟩ := pure_inv h
+    subst h3; subst h4
+    have := hp b x r1 h1
+    have := ih r1 r t h2
+    simp only [List.map_cons, List.sum_cons]
+    omega
+
+end DS.Wire
